@@ -25,7 +25,12 @@ def main(tier, seed):
     def cases():
         i = 0
         while True:
-            yield seqcommon.gen_case(seed, i, tier, focus='keys', tag='c14')
+            c = seqcommon.gen_case(seed, i, tier, focus='keys', tag='c14')
+            if i % 3 == 2:
+                # legacy schema: no UNIQUE constraints in the database, only the session can report a conflict
+                c['knobs']['legacy_keys'] = True
+                c['knobs']['fetch'] = 0      # objects are fetched by primary key: every unique attribute is loaded
+            yield c
             c = c14b.gen_case(seed, i, tier, with_faults=(i % 4 == 3))
             c['_conc'] = True
             yield c
